@@ -396,7 +396,18 @@ type decision struct {
 // Decide registers a conclusive positive verdict of the partial evaluator for the obligations whose key starts with
 // one of the prefixes (an include prefix such as "C10.record/" may precede it) and satisfies match.
 func (r *Report) Decide(prefixes []string, match func(key string) bool, why string) {
+	if p13Off {
+		return
+	}
 	r.decisions = append(r.decisions, decision{prefixes, match, why})
+}
+
+// p13Off (VERIF_P13=off) gives the verdict of the shape rules alone: the partial evaluators' obligations are recorded
+// as not counted and they override nothing (DESIGN.md 10.3).
+var p13Off = os.Getenv("VERIF_P13") == "off"
+
+func isEvaluatorKey(k string) bool {
+	return strings.Contains(k, "-values:") || strings.Contains(k, ".prefix-order:")
 }
 
 func (r *Report) applyDecisions() {
@@ -431,6 +442,10 @@ func newReport(prop, tier string) *Report {
 }
 
 func (r *Report) add(o *Obligation) *Obligation {
+	if p13Off && isEvaluatorKey(o.Key) {
+		o.Detail = "partial evaluation switched off (VERIF_P13=off), result not counted: " + string(o.Status) + " " + o.Detail
+		o.Status, o.Trivial = Discharged, true
+	}
 	// keys are unique per run; a duplicate key gets a numeric suffix so nothing is silently merged
 	base := o.Key
 	n := 1
